@@ -189,6 +189,17 @@ theorem apiUpdateJobStatus_good (c n : JobObj) (s : Sys) : Good (fun t => apiUpd
   obtain ⟨x, e, _, _, _, _, _, hp⟩ := JobCtlPlan.apiUpdateJobStatus_ext s c n
   exact ⟨[x], Kept.single e.calls e.clock (by rw [hp]; exact fun _ h => h)⟩
 
+theorem statusBase_setQ (s : Sys) (q : WQ) (jo : JobObj) (b : Bool) : statusBase (setQ s q) jo b = statusBase s jo b := rfl
+
+/-- the status write of `UpdateJobAndStatus`: on top of the object `Update` returned (`statusBase`) -/
+theorem apiUpdateJobStatusOn_good (jo n : JobObj) (b : Bool) (s : Sys) :
+    Good (fun t => apiUpdateJobStatus t (statusBase t jo b) n) s := by
+  refine Good.leaf (fun q' => ?_) ?_
+  · show apiUpdateJobStatus (setQ s q') (statusBase (setQ s q') jo b) n = _
+    rw [statusBase_setQ]; exact apiUpdateJobStatus_setQ s q' _ n
+  · obtain ⟨x, e, _, _, _, _, _, hp⟩ := JobCtlPlan.apiUpdateJobStatus_ext s (statusBase s jo b) n
+    exact ⟨[x], Kept.single e.calls e.clock (by rw [hp]; exact fun _ h => h)⟩
+
 theorem apiDeleteJob_good (c : JobObj) (s : Sys) : Good (fun t => apiDeleteJob t c) s := by
   refine Good.leaf (fun q' => apiDeleteJob_setQ s q' c) ?_
   obtain ⟨x, e, _, _, _, _, hp⟩ := JobCtlPlan.apiDeleteJob_ext s c
@@ -865,7 +876,7 @@ def oneK (jo : JobObj) (r : Job × Bool × Bool × Bool) (s1 : Sys) : Sys × Boo
   else
     let w2 : Sys × Bool :=
       if (decide (r.1.status ≠ jo.job.status) || r.2.2.2) = true then
-        apiUpdateJobStatus w1.1 jo { jo with job := r.1 } else (w1.1, true)
+        apiUpdateJobStatus w1.1 (statusBase w1.1 jo (r.1.admissionError ≠ jo.job.admissionError || r.2.1 ≠ jo.finalizer)) { jo with job := r.1 } else (w1.1, true)
     if (!w2.2) = true then (w2.1, false) else (w2.1, r.2.2.1)
 
 theorem syncOne_eqK (s : Sys) (jo : JobObj) (hc : s.jobCache = some jo) :
@@ -879,7 +890,7 @@ def oneK2 (jo : JobObj) (r : Job × Bool × Bool × Bool) (ok1 : Bool) (s2 : Sys
   else
     let w2 : Sys × Bool :=
       if (decide (r.1.status ≠ jo.job.status) || r.2.2.2) = true then
-        apiUpdateJobStatus s2 jo { jo with job := r.1 } else (s2, true)
+        apiUpdateJobStatus s2 (statusBase s2 jo (r.1.admissionError ≠ jo.job.admissionError || r.2.1 ≠ jo.finalizer)) { jo with job := r.1 } else (s2, true)
     if (!w2.2) = true then (w2.1, false) else (w2.1, r.2.2.1)
 
 theorem oneK2_good (jo : JobObj) (r : Job × Bool × Bool × Bool) (ok1 : Bool) (s : Sys) : Good (oneK2 jo r ok1) s := by
@@ -887,13 +898,13 @@ theorem oneK2_good (jo : JobObj) (r : Job × Bool × Bool × Bool) (ok1 : Bool) 
   | false => exact Good.of_eq (fun q' => by unfold oneK2; rfl) (Good.pure (fun _ => false) s (fun _ => rfl))
   | true =>
     by_cases hd : (decide (r.1.status ≠ jo.job.status) || r.2.2.2) = true
-    · have hu := apiUpdateJobStatus_good jo { jo with job := r.1 } s
+    · have hu := apiUpdateJobStatusOn_good jo { jo with job := r.1 } (r.1.admissionError ≠ jo.job.admissionError || r.2.1 ≠ jo.finalizer) s
       let m : Sys → Bool → Bool := fun _ ok2 => if (!ok2) = true then false else r.2.2.1
       have hm := Good.map hu m (fun _ _ _ => rfl)
       refine Good.of_eq (fun q' => ?_) hm
       unfold oneK2
       simp only [hd, if_true, Bool.not_true, Bool.false_eq_true, if_false]
-      cases (apiUpdateJobStatus (setQ s q') jo { jo with job := r.1 }).2 <;> rfl
+      cases (apiUpdateJobStatus (setQ s q') (statusBase (setQ s q') jo (r.1.admissionError ≠ jo.job.admissionError || r.2.1 ≠ jo.finalizer)) { jo with job := r.1 }).2 <;> rfl
     · refine Good.of_eq (fun q' => ?_) (Good.pure (fun _ => r.2.2.1) s (fun _ => rfl))
       unfold oneK2
       simp only [hd, Bool.not_true, Bool.false_eq_true, if_false]
